@@ -240,6 +240,30 @@ SPECIAL = [b"\x01", b"\x08", b"\x1a", b"\x1b", b" ", b"\"", b"#", b"'", b"/", b"
 BLANKS = [b" ", b"\t", b"\r", b"\r\r", b" \r ", b"\t\r\t", b"\r\t", b"   \t", b"\r \r \r"]
 
 
+MATCH_NAMES = ["x", "y", "z", "w", "q", "r", "t", "v", "_"]
+# subject, cases (alternatives, expr|block, body text), the value line (None for none)
+FIXED_MATCHES = [
+    ("2", [(["1"], "expr", '"one"'), (["2"], "expr", '"two"'), (["_"], "expr", '"other"')], "two"),
+    ("[1, 5]", [(["[0, y]"], "block", 'print "zero"'), (["[1, y]"], "expr", "y + 1"), (["_"], "expr", "0")], "6"),
+    ('"b"', [(['"a"', '"b"'], "expr", 'q + "!"'), (['"c"'], "expr", "0")], "gq!"),
+    ("3", [(["1"], "block", 'print "blk1"'), (["3"], "block", ""), (["_"], "block", 'print "blk_"')], "null"),
+    ("7", [(["n"], "expr", "n * 2")], "14"),
+    ("true", [(["false"], "expr", "0"), (["true"], "expr", "1"), (["null"], "expr", "2")], "1"),
+    ("4", [(["1"], "expr", "-1"), (["4", "5"], "expr", "-4"), (["6"], "expr", "x")], "-4"),
+    ("9", [(["1"], "expr", "x"), (["2", "3"], "expr", "[y, 2]"), (["n"], "expr", "[0, n][1] + 1")], "10"),
+    ("[[1], 2]", [(["[[a], 3]"], "block", "print a"), (["[[a], b]"], "expr", "a + b"), (["c"], "expr", "c")], "3"),
+    ('"s"', [(['"s"'], "expr", 'match (1) { 1 => "in" 2 => "no" }'), (["_"], "expr", "0")], "in"),
+    ("5", [(["1"], "expr", "true"), (["5"], "expr", "null"), (["_"], "expr", "false")], "null"),
+    ("0", [(["1"], "expr", '"a"')], "null"),
+]
+
+
+class self_r:
+    """the one attribute Layout.newline_run reads"""
+    def __init__(self, rng):
+        self.r = rng
+
+
 def comment_body(rng, seq, how):
     """the text of a comment around the byte sequence: what follows it would change the program if the comment ended there"""
     if how == 0:
@@ -267,7 +291,12 @@ class C13(Check):
             "documented output re-written with a comment or a run of blank bytes in every gap (before the first and after the last "
             "token included): comments holding lone CR, CR CR, TAB, FF, VT, NUL, NEL, U+2028, truncated and invalid UTF-8 in every gap, "
             "every other byte value and multi-byte sequence in random gaps, followed by text that would change the program if the "
-            "comment ended before the line feed; non-trivial = the layout "
+            "comment ended before the line feed; match expressions (12 fixed + random case lists from the C19 generator: literal, "
+            "identifier, array patterns, several alternatives, expression/block/empty-block bodies, nested match) with the cases "
+            "written one per line, all on one line separated by spaces only, with comments before the line ends, without any "
+            "optional space, and with every gap (around '=>', between alternatives, inside the braces, after `match`) drawn freely, "
+            "for cases closed by nothing / by commas / with a trailing comma, in a print list, an assignment and as a statement: "
+            "layouts of one token sequence agree, and with the documented output where known; non-trivial = the layout "
             "differs from the original in >= 3 gaps")
 
     def project(self, r):
@@ -365,6 +394,7 @@ class C13(Check):
         self.skipped = skipped
 
         self.comment_cases(rng, thorough)
+        self.match_layout_cases(rng, thorough)
 
         # ---- the lexer against the reference on pairs of tokens written with and without a separator
         pairs = [(a, b) for a in PAIR_TOKENS for b in PAIR_TOKENS]
@@ -501,6 +531,113 @@ class C13(Check):
                     emit(g, variant(g, body=comment_body(rng, seq, how)), "comment holding %r (form %d)" % (seq, how))
         self.layout_dropped = dropped
         self.layout_made = made
+
+    # ------------------------------------------------------------------ layouts of the cases of a match
+    def match_layout_cases(self, rng, thorough):
+        """match expressions whose cases are written one per line, all on one line with only spaces between them, with comments
+        before the line ends, and with every gap (around '=>', between alternatives, inside the braces) chosen freely: one
+        group per token sequence (cases closed by commas / by nothing / with a trailing comma); expression, block, literal bodies;
+        in a print list, on the right of an assignment, as a statement.  Where no case's body can run into the next pattern the
+        documented output is known as well (reference matcher of C19)."""
+        import pyref
+        from checks import c19
+        specs = []
+        for subj_src, cases, vline in FIXED_MATCHES:
+            specs.append(("fixed", subj_src, cases, None, vline))
+        n = 300 if thorough else 45
+        made = 0
+        while made < n:
+            subj = c19.subject(rng, rng.choice([0, 1, 2, 2]))
+            if c19.V.has_unset(subj):
+                continue
+            cl = [c for c in c19.make_cases(rng, subj) if c["alts"][0][0] != "bad"]
+            if not cl:
+                continue
+            made += 1
+            cases = []
+            for c in cl:
+                alts = [c19.pat_src(a) for a in c["alts"]]
+                text = c19.case_src(c).split(" => ", 1)[1]
+                if c["body"] == "block":
+                    cases.append((alts, "block", text[1:-1].strip()))
+                else:
+                    cases.append((alts, "expr", text))
+            env0 = {nm: "g" + nm for nm in c19.NAMES + ["_"]}
+            try:
+                printed, val = c19.match_value(subj, cl, env0)
+                ref = ("ok", printed, pyref.pretty(val))
+            except pyref.RuntimeErr:
+                ref = ("runtime", [], None)
+            safe = all(cl[i]["body"] == "block" or cl[i + 1]["alts"][0][0] != "arr" for i in range(len(cl) - 1))
+            specs.append(("random", pyref.literal(subj), cases, (ref, safe), None))
+        for what, subj_src, cases, ref, vline in specs:
+            ctx = rng.choice(["print", "print", "assign", "stmt"])
+            for commas in ("none", "between", "trailing"):
+                key = "g%d" % self.n
+                want = None
+                if ref is None:
+                    want = ("ok", [], vline)
+                elif commas != "none" or ref[1]:
+                    want = ref[0]
+                styles = ["lines", "oneline", "comment", "loose", "loose", "tight"] + (["loose"] * 4 if thorough else [])
+                seen = set()
+                for style in styles:
+                    text = self.match_program(rng, subj_src, cases, ctx, commas, style)
+                    if text in seen:
+                        continue
+                    seen.add(text)
+                    meta = {"what": "match layout (%s)" % what, "key": key, "layout": "%s, commas %s, %s" % (style, commas, ctx)}
+                    if want is not None:
+                        outcome, printed, v = want
+                        if outcome == "ok":
+                            lines = ["S"] + printed + (["V " + v] if ctx != "stmt" else []) + ["G " + " ".join("g" + nm for nm in MATCH_NAMES)]
+                        else:
+                            lines = ["S"]
+                        meta["want_outcome"], meta["want_stdout"] = outcome, "".join(l + "\n" for l in lines)
+                    self.add_run(text.encode(), [], meta, style != "lines")
+
+    def match_program(self, rng, subj_src, cases, ctx, commas, style):
+        def gap(kind):
+            """kind: 'sep' between two cases, 'in' any other gap inside the match"""
+            if style == "oneline" or (style == "lines" and kind == "in"):
+                return " "
+            if style == "tight":
+                return " " if kind == "sep" and commas == "none" else ""
+            if style == "lines":
+                return "\n    "
+            if style == "comment":
+                return " " if kind == "in" else " #" + rng.choice(COMMENTS) + "\n  "
+            if rng.random() < 0.5:
+                return rng.choice(HSPACE)
+            return Layout.newline_run(self_r(rng)).decode()
+        parts = []
+        for i, (alts, kind, body) in enumerate(cases):
+            t = ""
+            for j, a in enumerate(alts):
+                t += a + (gap("in") + "," + gap("in") if j < len(alts) - 1 else "")
+            t += gap("in") + "=>" + gap("in")
+            if style == "tight" and kind == "expr" and body[0].isalnum():
+                t += ""
+            if kind == "block":
+                t += "{" + gap("in") + body + gap("in") + "}" if body else "{" + gap("in") + "}"
+            else:
+                t += body
+            last = i == len(cases) - 1
+            if commas == "between" and not last or commas == "trailing":
+                t += gap("in") + ","
+            parts.append(t)
+        inner = ""
+        for i, t in enumerate(parts):
+            inner += t + (gap("sep") if i < len(parts) - 1 else "")
+        m = "match" + gap("in") + "(" + subj_src + ")" + gap("in") + "{" + gap("in") + inner + gap("in") + "}"
+        head = 'function say(l, v) { print "B", l\n return v }\nBEGIN {\n' + "".join(' %s = "g%s"\n' % (nm, nm) for nm in MATCH_NAMES) + ' print "S"\n'
+        if ctx == "print":
+            mid = ' print "V", ' + m + "\n"
+        elif ctx == "assign":
+            mid = " res = " + m + '\n print "V", res\n'
+        else:
+            mid = " " + m + "\n"
+        return head + mid + ' print "G", ' + ", ".join(MATCH_NAMES) + "\n}\n"
 
     def outside_strings(self, src, regex_aware=True):
         """the bytes of a program that are not inside string/regex literals or comments"""
